@@ -534,6 +534,17 @@ def store_sites(T, field, param=1):
         loc = st[3]
         if loc[0] == 'field' and loc[2] == field and peel(loc[1]) == ('param', param):
             out.append((st[1], st[2], norm(T.store_value(st))))
+    # `mem::replace(&mut self.<field>, v)` stores v (std), `mem::take(&mut self.<field>)` stores the default value
+    for st in T.stores():
+        if st[0] != 'k':
+            continue
+        loc = st[3]
+        if loc[0] == 'field' and loc[2] == field and peel(loc[1]) == ('param', param):
+            ct = norm(T.call_term(st[1]))
+            if ct[0] == 'call' and ct[1] == 'core::mem::replace' and len(ct[2]) == 2:
+                out.append((st[1], None, norm(ct[2][1])))
+            elif ct[0] == 'call' and ct[1] == 'core::mem::take' and len(ct[2]) == 1:
+                out.append((st[1], None, ('default',)))
     return out
 
 
